@@ -77,7 +77,7 @@ func safe(f func()) (panicked string) {
 	select {
 	case p := <-done:
 		return p
-	case <-time.After(3 * time.Second):
+	case <-time.After(25 * time.Second): // generous: the machine may be loaded; a real endless loop still ends up here
 		hangs++
 		return "HANG"
 	}
